@@ -275,3 +275,14 @@ func (e *Engine) ssaPkg(path string) *ssa.Package {
 	}
 	return nil
 }
+
+func (e *Engine) typeIDByName(k string) int {
+	e.mu.Lock()
+	defer e.mu.Unlock()
+	if id, ok := e.typeIDs[k]; ok {
+		return id
+	}
+	id := len(e.typeIDs) + 1
+	e.typeIDs[k] = id
+	return id
+}
